@@ -7,6 +7,7 @@ import (
 	"fmt"
 	"io"
 	"net"
+	"runtime"
 	"strconv"
 	"sync"
 	"time"
@@ -259,6 +260,9 @@ type Conn struct {
 	l1c          io.Closer
 	l2c          io.Closer
 	nextSentinel uint32
+	// SplitAt > 0: Exchange writes the first SplitAt bytes, pauses (SplitPause, or yields), then the rest
+	SplitAt    int
+	SplitPause time.Duration
 }
 
 // Dial starts a server loop for a new client connection on the given deployment.
@@ -316,7 +320,20 @@ func (c *Conn) Exchange(req []byte, timeout time.Duration) (reply []byte, closed
 	} else {
 		sentinel = binHdr(0x0a, 0, 0, 0, c.nextSentinel)
 	}
-	if _, err := c.client.Write(append(append([]byte(nil), req...), sentinel...)); err != nil {
+	all := append(append([]byte(nil), req...), sentinel...)
+	if c.SplitAt > 0 && c.SplitAt < len(all) {
+		// the request arrives in two pieces (e.g. a header split over two packets)
+		if _, err := c.client.Write(all[:c.SplitAt]); err != nil {
+			return nil, true, nil
+		}
+		if c.SplitPause > 0 {
+			time.Sleep(c.SplitPause)
+		} else {
+			runtime.Gosched()
+		}
+		all = all[c.SplitAt:]
+	}
+	if _, err := c.client.Write(all); err != nil {
 		return nil, true, nil
 	}
 	c.client.SetReadDeadline(time.Now().Add(timeout))
